@@ -27,6 +27,65 @@ pub fn check_encoder(case: &CodecCase) -> CaseResult {
         .label_if(enc.obs.pieces >= 2, "multiple_calls"))
 }
 
+/// Both codecs started from a caller's iovec that already holds bytes *and* one of the
+/// caller's own placeholders, still pending (a length prefix to be backfilled once the size is
+/// known): the codec appends behind it, `finish` hands the iovec back, the caller backfills.
+pub fn check_prefilled(case: &CodecCase) -> CaseResult {
+    use hcobs::{Decoder, Encoder};
+    use owning_iovec::OwningIovec;
+    let plain = case.payload.bytes();
+    let wire = hcobs_ref::encode(&plain, LIMIT_FIRST, LIMIT_LATER);
+    let pre = &case.pre.0;
+    let patch_len = 1 + plain.len() % 5;
+    let fill: Vec<u8> = (0..patch_len).map(|i| 0xB0 + i as u8).collect();
+    let cuts_e = crate::engine::bytespec::resolve_cuts(&case.enc.cuts, plain.len(), &codec::plain_interesting(&plain));
+    let cuts_d = crate::engine::bytespec::resolve_cuts(&case.dec.cuts, wire.len(), &codec::encoded_interesting(&wire));
+
+    // Encoder.
+    let mut iovec = OwningIovec::new();
+    iovec.push_copy(pre);
+    let backref = iovec.register_patch(&vec![0u8; patch_len]);
+    let mut encoder = Encoder::new_from_iovec(iovec);
+    for (i, piece) in crate::engine::bytespec::split_at_cuts(&plain, &cuts_e).into_iter().enumerate() {
+        if i % 2 == 0 {
+            encoder.encode(piece);
+        } else {
+            encoder.encode_copy(piece);
+        }
+        let visible: usize = encoder.consumer().stable_prefix().iter().map(|s| s.len()).sum();
+        if visible > pre.len() {
+            return Err(Fail::new("prefilled:visible-behind-placeholder", "bytes behind the caller's pending placeholder are consumable".to_string()));
+        }
+    }
+    let mut out = encoder.finish();
+    out.backfill_or_panic(backref, &fill);
+    let got = out.flatten().map_err(|_| Fail::new("prefilled:pending", "a placeholder is still pending after the caller's backfill".to_string()))?;
+    let want: Vec<u8> = [&pre[..], &fill[..], &wire[..]].concat();
+    if got != want {
+        return Err(Fail::new("prefilled:encoder", codec::mismatch("encoder started from an iovec with a pending placeholder", &got, &want)));
+    }
+
+    // Decoder.
+    let mut iovec = OwningIovec::new();
+    iovec.push_copy(pre);
+    let backref = iovec.register_patch(&vec![0u8; patch_len]);
+    let mut decoder = Decoder::new_from_iovec(iovec);
+    for (i, piece) in crate::engine::bytespec::split_at_cuts(&wire, &cuts_d).into_iter().enumerate() {
+        let r = if i % 2 == 0 { decoder.decode(piece) } else { decoder.decode_copy(piece) };
+        r.map_err(|e| Fail::new("prefilled:decoder-rejects", format!("decoder started from an iovec with a pending placeholder rejected a canonical encoding: {e}")))?;
+    }
+    let mut out = decoder
+        .finish()
+        .map_err(|e| Fail::new("prefilled:decoder-rejects", format!("finish() rejected a canonical encoding: {e}")))?;
+    out.backfill_or_panic(backref, &fill);
+    let got = out.flatten().map_err(|_| Fail::new("prefilled:pending", "a placeholder is still pending after the caller's backfill".to_string()))?;
+    let want: Vec<u8> = [&pre[..], &fill[..], &plain[..]].concat();
+    if got != want {
+        return Err(Fail::new("prefilled:decoder", codec::mismatch("decoder started from an iovec with a pending placeholder", &got, &want)));
+    }
+    Ok(Outcome::new(plain.len() >= 252 || !pre.is_empty()).label_if(!pre.is_empty(), "bytes_before_the_placeholder"))
+}
+
 #[derive(Clone, Debug, PartialEq, Eq, Hash, Serialize, Deserialize)]
 pub enum Mutation {
     /// Overwrite byte `byte` (0 or 1) of the `which`-th chunk header.
@@ -240,6 +299,8 @@ pub fn run(ctx: &Ctx, rep: &mut Report) {
     engine::drive(ctx, rep, "encoder-large", codec::codec_case(true), cases, check_encoder);
     let cases = ctx.share(ctx.tier.pick(8_000, 60_000));
     engine::drive(ctx, rep, "encoder-power-of-two-aligned", codec::aligned_case(), cases, check_encoder);
+    let cases = ctx.share(ctx.tier.pick(8_000, 200_000));
+    engine::drive(ctx, rep, "prefilled-iovec-with-placeholder", codec::codec_case(false), cases, check_prefilled);
     let cases = ctx.share(ctx.tier.pick(80_000, 600_000));
     engine::drive(ctx, rep, "decoder", dec_case(false), cases, check_decoder);
     let cases = ctx.share(ctx.tier.pick(4_000, 40_000));
@@ -250,6 +311,7 @@ fn replay(_ctx: &Ctx, group: &str, case: &Value) -> CaseResult {
     match group {
         "small-scope-encoder" => hcobs_small::check_small_enc(&parse_case::<SmallEnc>(case)?, Focus::Canonical),
         "small-scope-decoder" => hcobs_small::check_small_dec(&parse_case::<SmallDec>(case)?),
+        "prefilled-iovec-with-placeholder" => check_prefilled(&parse_case::<CodecCase>(case)?),
         g if g.starts_with("encoder") => check_encoder(&parse_case::<CodecCase>(case)?),
         _ => check_decoder(&parse_case::<DecCase>(case)?),
     }
@@ -258,7 +320,7 @@ fn replay(_ctx: &Ctx, group: &str, case: &Value) -> CaseResult {
 pub fn def() -> PropDef {
     PropDef {
         id: "C07",
-        rule: "Encoder groups: C01's case type; oracle: output equals byte for byte an independently written reference encoder (limits 252/64008 and radix 253 are literals in the reference). encoder-power-of-two-aligned: C02's aligned payloads. Decoder groups: a case is (optional payload whose canonical encoding is the starting string, a list of mutations - overwrite a chunk-header byte with 253..255 / near-limit / small values, set/delete/insert bytes, truncate, append an extra chunk - or a short arbitrary string, and a feeding plan with cuts and input methods); oracle: accept/reject verdict and decoded bytes equal the reference decoder's, no panic. truncate-every-position enumerates every truncation of the encodings of boundary-length payloads. Non-trivial: the string has >= 2 chunks (reaches a two-byte header), or is rejected for a reason other than being empty. Distinct: hash of the serialised case / by enumeration. Small-scope groups: all strings over {FE,FD,00} up to max_len x 4 limit pairs x cuts x methods (encoder), all strings over {00,01,02,03,05,FC,FD,FE} up to max_len with limits 3/5 x cuts x methods (decoder), through the hcobs::verif hook.",
+        rule: "Encoder groups: C01's case type; oracle: output equals byte for byte an independently written reference encoder (limits 252/64008 and radix 253 are literals in the reference). encoder-power-of-two-aligned: C02's aligned payloads. prefilled-iovec-with-placeholder: both codecs are started with new_from_iovec on an iovec that holds a few bytes and one of the caller's own placeholders, still pending; pieces go in by encode / encode_copy (decode / decode_copy), finish hands the iovec back, the caller backfills, and the whole must be prefix ++ fill ++ reference output. Decoder groups: a case is (optional payload whose canonical encoding is the starting string, a list of mutations - overwrite a chunk-header byte with 253..255 / near-limit / small values, set/delete/insert bytes, truncate, append an extra chunk - or a short arbitrary string, and a feeding plan with cuts and input methods); oracle: accept/reject verdict and decoded bytes equal the reference decoder's, no panic. truncate-every-position enumerates every truncation of the encodings of boundary-length payloads. Non-trivial: the string has >= 2 chunks (reaches a two-byte header), or is rejected for a reason other than being empty. Distinct: hash of the serialised case / by enumeration. Small-scope groups: all strings over {FE,FD,00} up to max_len x 4 limit pairs x cuts x methods (encoder), all strings over {00,01,02,03,05,FC,FD,FE} up to max_len with limits 3/5 x cuts x methods (decoder), through the hcobs::verif hook.",
         assumptions: &[
             "the reference codec (refimpl/hcobs_ref.rs) is correct; it is validated against the expected pairs quoted from the crate's unit tests (cargo test in /verif/harness)",
             "decoders are not fed after their first error",
